@@ -60,6 +60,9 @@ def run(ctx):
     schema(ctx, d3)
     handed_out(ctx, d4)
     name_table(ctx, d5)
+    d6 = ctx.rule('D6', 'the per-(phases, chemicals) index cache is refreshed after its inputs change', floor=3)
+    from ..generic import index_cache_follows_inputs
+    index_cache_follows_inputs(prog, d6)
 
 
 def eviction(ctx, d1, f):
